@@ -18,7 +18,13 @@ from asimap import __version__
 
 from .auth import PWUser, authenticate
 from .constants import SPECIAL_USE_ATTR_VALUES
-from .exceptions import AuthenticationException, Bad, MailboxInconsistency, No
+from .exceptions import (
+    AuthenticationException,
+    Bad,
+    MailboxInconsistency,
+    No,
+    response_text,
+)
 from .mbox import Mailbox, NoSuchMailbox
 from .parse import (
     IMAPClientCommand,
@@ -272,7 +278,7 @@ class BaseClientHandler:
             )
             if self.server and imap_command.command:
                 self.server.num_failed_commands[imap_command.command] += 1
-            result = f"{imap_command.tag} NO {e}\r\n"
+            result = f"{imap_command.tag} NO {response_text(e)}\r\n"
             await self.client.push(result)
             return
         except Bad as e:
@@ -281,7 +287,7 @@ class BaseClientHandler:
             )
             if self.server and imap_command.command:
                 self.server.num_failed_commands[imap_command.command] += 1
-            result = f"{imap_command.tag} BAD {e}\r\n"
+            result = f"{imap_command.tag} BAD {response_text(e)}\r\n"
             await self.client.push(result)
             return
         except TimeoutError:
@@ -324,7 +330,10 @@ class BaseClientHandler:
 
             if self.server and imap_command.command:
                 self.server.num_failed_commands[imap_command.command] += 1
-            result = f"{imap_command.tag} BAD Unhandled exception: {e}"
+            result = (
+                f"{imap_command.tag} BAD Unhandled exception: "
+                f"{response_text(e)}"
+            )
             try:
                 await self.client.push(result.strip() + "\r\n")
             except Exception:
